@@ -27,6 +27,8 @@ TRUSTED_BASE = [
     "z3py expression constructors are parametric in integer numerals (validated by the CPython differential on every path)",
     "pydantic enforces exactly the declared field constraints, copies defaults, does not validate assignment (the real pydantic validates every non-symbolic value); only BaseModel is replaced",
     "ghost solver contract: sat => the model satisfies every stacked formula; unsat => none does; unknown tells nothing; push/pop is a stack; an unsat core is a jointly unsatisfiable subset of the tracked names; Optimize returns an optimum of the registered objectives",
+    "tracked assertions (debug mode): assert_and_track(f, p) is checked as f with p assumed -- a literal that is also an unknown of the model is thereby forced; what z3 shows of it (assertions(), to_smt2(), sexpr()) is `p => f`; an unsat core is unsatisfiable together with everything untracked",
+    "SMT-LIB text is abstracted to the list of formulas it denotes (appended `(assert <Boolean symbol>)` commands are read); that z3's printer and parser are inverse is exercised natively on every export case",
     "PbEq/PbGe/PbLe(args, k) read as Sum(If(b, w, 0)) ==/>=/<= k when k is symbolic",
     "recording ghosts for xlsxwriter / matplotlib / pandas / files opened for writing: the libraries write and draw what they are told (the real ones are run natively on sampled inputs)",
     "Python ints and z3 Int are both mathematical integers; int(a/b) and true division computed on exact rationals; uuid values never repeat; hash() of z3 ASTs treated as injective",
